@@ -52,6 +52,19 @@ Theorem cancel_before_due_never_fires : forall v pick, pick_sound pick ->
 Proof. exact cancel_before_due_lemma. Qed.
 Print Assumptions cancel_before_due_never_fires.
 
+(* U: a <cancel> removes EVERY pending event of its sendid: from the moment it has returned, each
+   event sent earlier under that sendid and not yet due is out of _callbackData, in no running
+   callback and undelivered (programs may send any number of events under one sendid) *)
+Theorem cancel_removes_all_with_sendid : forall v pick, pick_sound pick ->
+  forall p sched l1 sid tc l2,
+  wf_prog p = true ->
+  let s := run v pick (init p) sched in
+  trace s = l1 ++ ECancelDone sid tc :: l2 ->
+  forall u tgt enq d, In (ESend u sid tgt enq d) l2 -> tc < enq + d ->
+    lookup (pending s) u = None /\ tpc_on (tpc s) <> Some u /\ ~ In u (delivered (trace s)).
+Proof. exact cancel_removes_all_lemma. Qed.
+Print Assumptions cancel_removes_all_with_sendid.
+
 (* U: the executable oracle that judges the histories observed on the implementation
    (delay_admissibleb: at most once, not early, due order, cancel before due) accepts every
    history of the model; and what it accepts is delivered at most once and not early *)
